@@ -32,10 +32,11 @@ structure Cfg where
   cancelExit  : Bool   -- 07: `~Terminal` cancels the exit tasks that are still queued
   cursorReset : Bool   -- 08: `!n`/`!!` move the cursor to the end of the line they swap in
   rerunGuard  : Bool   -- 09: a history line that itself is a history command is refused
+  cancelEnd   : Bool   -- 10: `~Telnetd::Impl` / `~TcpRpc::Impl` cancel the disconnect tasks that are still queued
 deriving DecidableEq, Repr
 
-def Cfg.fixed : Cfg := ⟨true, true, true, true, true, true, true, true, true⟩
-def Cfg.legacy : Cfg := ⟨false, false, false, false, false, false, false, false, false⟩
+def Cfg.fixed : Cfg := ⟨true, true, true, true, true, true, true, true, true, true⟩
+def Cfg.legacy : Cfg := ⟨false, false, false, false, false, false, false, false, false, false⟩
 
 /-! ## strings -/
 
@@ -746,7 +747,7 @@ def World.slot (w : World) (k : Nat) : Slot := w.slots.getD k {}
 def World.setSlot (w : World) (k : Nat) (x : Slot) : World := { w with slots := w.slots.set k x }
 
 inductive Op
-  | sel (k : Nat) | depth (n : Nat) | openS (o : Nat) | recv (bs : Str) | pass | teardown | opt (n : Nat) | winsz (w h : Nat) | close
+  | sel (k : Nat) | depth (n : Nat) | openS (o : Nat) | recv (bs : Str) | pass | teardown | passdown | opt (n : Nat) | winsz (w h : Nat) | close
   | xconn (k : Nat) | xrecv (k : Nat) (bs : Str) | xdisc (k : Nat)
   | sstart | srecv (bs : Str) | sstop
   | mkdir | mkfunc (script : List Act) | mount (p c : Nat) (name : Str) | umount (p : Nat) (name : Str) | rmnode (i : Nat)
@@ -877,12 +878,23 @@ def step (cfg : Cfg) (w : World) : Op → Option (World × List Ev)
     let r := doPass cfg w
     some (r.1, r.2 ++ opLine "pass")
   | .teardown =>
-    -- services, Terminal, then the Loop are destroyed without draining: the Loop's cleanup runs what is
-    -- still queued — an exit task of the destroyed Terminal, unless its destructor cancelled it
-    if w.frontEnd then none       -- (the harness does not tear down while a Telnetd/TcpRpc task is queued)
-    else
-      let evs : List Ev := if w.exits ≠ [] ∧ !cfg.cancelExit then [.bad .useAfterFree] else []
-      some ({ tel := w.tel, rpc := w.rpc, depth := w.depth }, evs ++ opLine "teardown")
+    -- services, Terminal, then the Loop are destroyed without draining: the Loop's cleanup runs what is still
+    -- queued — an exit task of the destroyed Terminal, a disconnect task of the destroyed Telnetd / TcpRpc
+    -- (queued by a handler's `endSession()`) — unless the destructors cancelled them
+    let evs : List Ev :=
+      if (w.exits ≠ [] ∧ !cfg.cancelExit) ∨ (w.frontEnd ∧ !cfg.cancelEnd) then [.bad .useAfterFree] else []
+    some ({ tel := w.tel, rpc := w.rpc, depth := w.depth }, evs ++ opLine "teardown")
+  | .passdown =>
+    -- one loop pass whose last task destroys the services and the Terminal: the tasks queued before run (the
+    -- disconnects asked for by handlers, the exit tasks), but the disconnect tasks that the exit tasks of
+    -- telnet / raw-TCP sessions queue in this very pass are still in the loop when their service dies:
+    -- cancelled by its destructor (patch 10), else run on the destroyed object
+    let c := closeEnding [4, 5, 6] w.slots
+    let r := runExits cfg w.exits c.1
+    let late := r.2.any (· = .closed)
+    let evs : List Ev := if late ∧ !cfg.cancelEnd then [.bad .useAfterFree] else []
+    some ({ tel := w.tel, rpc := w.rpc, depth := w.depth },
+          c.2 ++ r.2.filter (· ≠ .closed) ++ evs ++ opLine "passdown")
   | .opt n =>
     let x := w.slot w.cur
     if n < 4 ∧ x.fstate ≠ 0 then
